@@ -104,11 +104,27 @@ theorem gen_units_ok : unitsOK Gen.Convert.memUnits := by
 
 /-! ## `yamlf`, `MemorySize` and the loader -/
 
+theorem readPlain_of_str (x : Ext) (s : String) (h : x.yaml s = .str) : readPlain x s = some s := by
+  simp [readPlain, h]
+
+theorem readText_of_safe (fx : Fixes) (x : Ext) (s : String) (h : safeStr fx x s) :
+    readText x (s, !isPlainFx fx s) = some s := by
+  cases hp : isPlainFx fx s
+  · simp [readText]
+  · simp [readText, readPlain_of_str x s (h hp)]
+
+theorem allSome_map {α β : Type} (l : List α) (f : α → Option β) (g : α → β)
+    (h : ∀ a ∈ l, f a = some (g a)) : allSome (l.map f) = some (l.map g) := by
+  induction l with
+  | nil => rfl
+  | cons a t ih =>
+    have ha := h a (List.mem_cons_self ..)
+    have ht := ih (fun b hb => h b (List.mem_cons_of_mem _ hb))
+    simp [allSome, ha, ht]
+
 theorem yaml_text_roundtrip (fx : Fixes) (x : Ext) (s : String) (h : safe fx x (.str s)) :
     yamlOf x (yamlf fx (.str s)) = .str s := by
-  cases hp : isPlainFx fx s
-  · simp [yamlf, yamlOf, hp]
-  · simp [yamlf, yamlOf, hp, h hp]
+  simp only [yamlf, yamlOf, readText_of_safe fx x s h]
 
 /-- `MemorySize.MarshalText` followed by `UnmarshalText` is the identity (units as regenerated) -/
 theorem mem_roundtrip (x : Ext) (units : List (Nat × String × Nat)) (hu : unitsOK units) (m : Nat) :
@@ -313,13 +329,10 @@ theorem convert_preserves_renderStringarray (fx : Fixes) (x : Ext) (r : Row) (l 
     cases hi : fx.items
     · -- the code as it is
       have hs' : ∀ s ∈ a :: t, x.yaml s = .str := by simpa [safe, hi] using hs
-      have hall : (a :: t).all (fun s => x.yaml s == .str) = true := by
-        apply List.all_eq_true.mpr
-        intro s hm
-        simp [hs' s hm]
+      have hall : allSome ((a :: t).map (readPlain x)) = some ((a :: t).map id) :=
+        allSome_map _ _ _ (fun s hm => by simpa using readPlain_of_str x s (hs' s hm))
       have hy : yamlOf x (.items (a :: t)) = .strs (a :: t) := by
-        show (if (a :: t).all (fun s => x.yaml s == .str) = true then YV.strs (a :: t) else YV.bad) = _
-        rw [if_pos hall]
+        simp only [yamlOf, hall, List.map_id]
       have h1 : renderStringarray fx (some (.strs (a :: t))) = .line (.items (a :: t)) := by
         simp [renderStringarray, hi]
       rw [h1]
@@ -331,18 +344,15 @@ theorem convert_preserves_renderStringarray (fx : Fixes) (x : Ext) (r : Row) (l 
     · -- repaired: every item through `yamlf`
       have hs' : ∀ s ∈ a :: t, safeStr fx x s := by simpa [safe, hi] using hs
       let q := (a :: t).map fun s => (s, !isPlainFx fx s)
-      have hall : q.all (fun p => p.2 || x.yaml p.1 == .str) = true := by
-        apply List.all_eq_true.mpr
+      have hall : allSome (q.map (readText x)) = some (q.map (·.1)) := by
+        apply allSome_map
         intro p hm
         obtain ⟨s, hsm, rfl⟩ := List.mem_map.mp hm
-        cases hp : isPlainFx fx s
-        · simp
-        · simp [hs' s hsm hp]
+        exact readText_of_safe fx x s (hs' s hsm)
       have hq : q.map (·.1) = a :: t := by
         simp [q, List.map_map, Function.comp_def]
       have hy : yamlOf x (.qitems q) = .strs (a :: t) := by
-        show (if q.all (fun p => p.2 || x.yaml p.1 == .str) = true then YV.strs (q.map (·.1)) else YV.bad) = _
-        rw [if_pos hall, hq]
+        simp only [yamlOf, hall, hq]
       have h1 : renderStringarray fx (some (.strs (a :: t))) = .line (.qitems q) := by
         simp [renderStringarray, hi, q]
       rw [h1]
@@ -372,19 +382,16 @@ theorem convert_preserves_renderMap_fixed (fx : Fixes) (x : Ext) (r : Row) (d : 
   | cons a t =>
     have hs' : ∀ p ∈ a :: t, safeStr fx x p.1 ∧ safeStr fx x p.2 := by simpa [safe] using hs
     let q := (a :: t).map fun p => ((p.1, !isPlainFx fx p.1), (p.2, !isPlainFx fx p.2))
-    have hall : q.all (fun p => (p.1.2 || x.yaml p.1.1 == .str) && (p.2.2 || x.yaml p.2.1 == .str)) = true := by
-      apply List.all_eq_true.mpr
+    have hall : allSome (q.map (readPair x)) = some (q.map fun p => (p.1.1, p.2.1)) := by
+      apply allSome_map
       intro p hm
       obtain ⟨e, hem, rfl⟩ := List.mem_map.mp hm
       obtain ⟨h1, h2⟩ := hs' e hem
-      cases hp1 : isPlainFx fx e.1 <;> cases hp2 : isPlainFx fx e.2 <;>
-        simp [hp1, hp2] <;> first | exact h1 hp1 | exact h2 hp2 | exact ⟨h1 hp1, h2 hp2⟩
+      simp only [readPair, readText_of_safe fx x e.1 h1, readText_of_safe fx x e.2 h2]
     have hq : q.map (fun p => (p.1.1, p.2.1)) = a :: t := by
       simp [q, List.map_map, Function.comp_def]
     have hy : yamlOf x (.table q) = .tbl (a :: t) := by
-      show (if q.all (fun p => (p.1.2 || x.yaml p.1.1 == .str) && (p.2.2 || x.yaml p.2.1 == .str)) = true
-        then YV.tbl (q.map fun p => (p.1.1, p.2.1)) else YV.bad) = _
-      rw [if_pos hall, hq]
+      simp only [yamlOf, hall, hq]
     have h1 : renderMap fx d r.field (some (.tbl (a :: t))) = .line (.table q) := by
       simp [renderMap, hfx, q]
     rw [h1]
@@ -578,6 +585,17 @@ theorem map_setting_aborts :
     convertRow {} wx [] [("AdditionalAttributes", .val (.tbl [("ClusterName", "MyCluster")]))] wRowAttrs = .panic ∧
     effective wx wRowAttrs (convertRow { renderMap := true } wx []
       [("AdditionalAttributes", .val (.tbl [("ClusterName", "MyCluster")]))] wRowAttrs) = .tbl [("ClusterName", "MyCluster")] := by
+  decide
+
+/-- YAML strips the blanks at the ends of a plain scalar: text with edge whitespace that is written
+WITHOUT quotes is not value-preserving (here: a `yamlf` that left `"s3cret "` bare would turn the
+setting into `"s3cret"`, and the file would still validate).  This is why `isPlainFixed` admits no
+blank, and why the harness generates strings with leading/trailing/only blanks. -/
+theorem bare_edge_blank_not_preserved :
+    let x : Ext := { wx with yaml := fun s => if s = "s3cret " then .diff "s3cret" else .str }
+    effective x wRowPrefix (.line (.text "s3cret " false)) = .str "s3cret" ∧
+    effective x wRowPrefix (.line (.text "s3cret " true)) = .str "s3cret " ∧
+    isPlainFixed "s3cret " = false ∧ isPlainFixed " " = false ∧ isPlainFixed "a b" = false := by
   decide
 
 /-- with the repaired `yamlf`, whatever is left unquoted is read back as a string -/
